@@ -70,6 +70,67 @@ def numeric_compare(row, rng, n_points, tol=1e-7):
     return done, skipped, None
 
 
+class _Timeout(Exception):
+    pass
+
+
+def limit_check(row, rng, samples):
+    """where a finite value is reported at 0 Hz or at infinite frequency it is the continuous extension of the finite-frequency
+    values: the values at 1e-6, 1e-9, 1e-12 Hz (1e9, 1e12, 1e15 Hz) approach it — the last one to within 1 % of the scale, or the
+    distances shrink by a factor of 3 or more per step.  Exponent-like parameters (limits within [0, 1]) are kept >= 0.5 so that the
+    approach is fast enough to be seen.  Returns (checked, skipped, first failure or None)."""
+    import signal
+    import numpy as np
+
+    def on_alarm(*a):
+        raise _Timeout()
+    cls = row["cls"]
+    checked = skipped = 0
+    old = signal.signal(signal.SIGALRM, on_alarm)
+    try:
+        for trial in range(samples):
+            vals = {}
+            if trial:
+                vals = sample_params(row, rng)
+                for k in vals:
+                    if row["lo"][k] >= 0.0 and row["hi"][k] <= 1.0:
+                        vals[k] = min(max(vals[k], 0.5), row["hi"][k])
+            try:
+                el = cls(**vals)
+            except Exception:  # noqa
+                skipped += 1
+                continue
+            for name, f0, seq in (("0 Hz", 0.0, [1e-6, 1e-9, 1e-12]), ("infinite frequency", float("inf"), [1e9, 1e12, 1e15])):
+                try:
+                    signal.alarm(10)
+                    with np.errstate(all="ignore"):
+                        z0 = complex(el.get_impedances(np.array([f0]))[0])
+                        zs = [complex(el.get_impedances(np.array([f]))[0]) for f in seq]
+                    signal.alarm(0)
+                except _Timeout:
+                    skipped += 1
+                    continue
+                except Exception:  # noqa: no finite limit reported (InfiniteLimit, NotImplementedError, ...): nothing is claimed
+                    signal.alarm(0)
+                    skipped += 1
+                    continue
+                if not (cmath.isfinite(z0) and all(cmath.isfinite(z) for z in zs)):
+                    skipped += 1
+                    continue
+                checked += 1
+                dev = [abs(z - z0) for z in zs]
+                scale = max(abs(z0), abs(zs[0]), 1e-300)
+                close = dev[-1] <= 1e-2 * scale
+                shrinking = dev[0] > 0 and all(dev[i + 1] <= dev[i] / 3 for i in range(2))
+                if not (close or shrinking):
+                    return checked, skipped, {"params": vals, "limit": name, "reported": repr(z0), "frequencies": seq, "values": [repr(z) for z in zs],
+                                              "distances": dev}
+    finally:
+        signal.alarm(0)
+        signal.signal(signal.SIGALRM, old)
+    return checked, skipped, None
+
+
 def tlm_sweep(rng, n_per_config):
     """the general transmission line: all 27 admissible configurations (X_1/X_2 finite or short but not both short, Zeta
     finite, Z_A/Z_B finite|short|open) x random finite sub-circuits, plus a sample of inadmissible ones (which both sides
@@ -187,6 +248,20 @@ def run(rep, tier, seed, tr_errors):
         elif sym in broken:
             rep.violation("lemma_%s" % sym, {"kind": "broken-obligation", "obligation": "lemma:%s_impl_eq_eqn" % sym,
                                              "detail": broken[sym], "numeric_points_tried": done}, no_input=True)
+    # the reported limits at 0 Hz and at infinite frequency
+    lim = {}
+    lim_fail = []
+    for r in rows:
+        chk, skp, fail = limit_check(r, rng, 2 if tier == "quick" else 5)
+        lim[r["symbol"]] = {"checked": chk, "no_finite_limit_or_timeout": skp, "failed": fail is not None}
+        rep.evaluations += chk
+        if fail is not None:
+            lim_fail.append((r["symbol"], fail))
+    rep.extra["limits_at_0_and_inf"] = lim
+    rep.oblige("reported-limits-are-the-continuous-extension (0 Hz and infinite frequency, every class that reports a finite limit)", not lim_fail and sum(v["checked"] for v in lim.values()) >= 10,
+               "%d limits checked, %d failures" % (sum(v["checked"] for v in lim.values()), len(lim_fail)))
+    for sym, fail in lim_fail[:3]:
+        rep.violation("limit_%s" % sym, {"kind": "counterexample", "obligation": "a reported finite limit is the continuous extension of the finite-frequency values", "input": {"class": sym, **fail}})
     cfgs, ncmp, tfail = tlm_sweep(rng, 2 if tier == "quick" else 6)
     sweep["Tlm"] = {"configurations": cfgs, "compared": ncmp, "failed": tfail is not None}
     rep.evaluations += ncmp
